@@ -71,6 +71,8 @@ MemoOk(mm) ==
 Reg(n) == regs[n]
 HasReg(n) == n \in DOMAIN regs
 NCells == Len(memo.cells)
+\* a register that holds fan data of the current configuration
+FanReg(n) == HasReg(n) /\ SameShape(Reg(n), NCells)
 
 (* ----------------------------- conversions ----------------------------- *)
 \* "each entry is the value of the bin that the geometry assigns to that detector pair" (entries
@@ -86,7 +88,7 @@ MakeFanOk(r) ==
 \* tangential range -Hfs..Hfs are not part of the fan representation: not constrained)
 SetFanOk(r) ==
   LET F == Reg(r.src)  out == V(r.m, r.ex)  gap == << r.gm, r.ge >> IN
-  /\ HasReg(r.src) /\ SameShape(out, memo.numBins)
+  /\ FanReg(r.src) /\ SameShape(out, memo.numBins)
   /\ \A j \in 1..memo.numBins :
         CASE memo.cellIdx[j] > 0 -> ValAt(out, j) = ValAt(F, memo.cellIdx[j])
           [] memo.cellIdx[j] = 0 -> ValAt(out, j) = gap
@@ -100,31 +102,31 @@ RestoresOk(r, op, arg, out) ==
      out = prov[r.src].orig
 ApplyEffOk(r) ==
   LET out == V(r.m, r.ex) IN
-  /\ HasReg(r.src) /\ SameShape(out, NCells) /\ Len(r.x) = memo.fg.R * memo.fg.N
+  /\ FanReg(r.src) /\ SameShape(out, NCells) /\ Len(r.x) = memo.fg.R * memo.fg.N
   /\ \A i \in 1..NCells : ValAt(out, i) = ApplyEffAt(memo.fg, memo.cells, Reg(r.src), r.x, IF r.apply THEN 1 ELSE -1, i)
   /\ RestoresOk(r, "eff", r.x, out)
 ApplyGeoOkT(r) ==
   LET out == V(r.m, r.ex)  G == V(r.gm, r.ge) IN
-  /\ HasReg(r.src) /\ SameShape(out, NCells) /\ SameShape(G, Len(memo.slots))
+  /\ FanReg(r.src) /\ SameShape(out, NCells) /\ SameShape(G, Len(memo.slots))
   /\ ApplyGeoOk(Reg(r.src), G, memo.slotsOf, out, r.apply)
   /\ RestoresOk(r, "geo", G, out)
 ApplyBlockOkT(r) ==
   LET out == V(r.m, r.ex)  B == V(r.bm, r.be) IN
-  /\ HasReg(r.src) /\ SameShape(out, NCells) /\ SameShape(B, Len(memo.bcells))
+  /\ FanReg(r.src) /\ SameShape(out, NCells) /\ SameShape(B, Len(memo.bcells))
   /\ ApplyBlockOk(g, memo.cells, memo.blkOff, Reg(r.src), B, out, r.apply)
   /\ RestoresOk(r, "block", B, out)
 
 (* ----------------------------- iterations ------------------------------ *)
 FanSumsOkT(r) ==
   LET S == V(r.m, r.ex) IN
-  /\ HasReg(r.src) /\ SameShape(S, memo.fg.R * memo.fg.N)
+  /\ FanReg(r.src) /\ SameShape(S, memo.fg.R * memo.fg.N)
   /\ FanSumsOk(memo.fg, memo.raOff, Reg(r.src), S)
 \* "For data generated exactly from a model, the model parameters are a fixed point of the
 \* maximum-likelihood iterations".  The hypothesis is verified here, not assumed: the fan sums given
 \* to the iteration must be those of model * eff * eff.
 IterEffOk(r) ==
   LET out == V(r.m, r.ex)  S == V(r.sm, r.se)  n == memo.fg.R * memo.fg.N
-  IN /\ HasReg(r.model) /\ SameShape(out, n) /\ SameShape(S, n) /\ Len(r.x) = n
+  IN /\ FanReg(r.model) /\ SameShape(out, n) /\ SameShape(S, n) /\ Len(r.x) = n
      \* hypothesis (else the line is not explained): S = fan sums of model * eff * eff
      /\ FanSumsOkF(memo.fg, memo.raOff, LAMBDA i : ApplyEffAt(memo.fg, memo.cells, Reg(r.model), r.x, 1, i), S)
      /\ out = EffOfExp(r.x)                                      \* fixed point (theorem F1: the update relation returns it)
@@ -133,7 +135,7 @@ IterEffOk(r) ==
 \* slot that is itself an entry of the fan data and whose class has only non-zero model entries
 IterGeoOk(r) ==
   LET out == V(r.m, r.ex)  G == V(r.gm, r.ge)  M == Reg(r.model)  D == Reg(r.data) IN
-  /\ HasReg(r.model) /\ HasReg(r.data) /\ SameShape(out, Len(memo.slots)) /\ SameShape(G, Len(memo.slots))
+  /\ FanReg(r.model) /\ FanReg(r.data) /\ SameShape(out, Len(memo.slots)) /\ SameShape(G, Len(memo.slots))
   /\ ClassConsistent(G, memo.slotsOf)                             \* hypotheses
   /\ SameShape(D, NCells) /\ \A i \in 1..NCells : ValAt(D, i) = ApplyGeoAt(M, G, memo.slotsOf, i)
   /\ \A n \in 1..Len(memo.slots) :
@@ -141,7 +143,7 @@ IterGeoOk(r) ==
 \* block factors: the same with the block pairs (factors symmetric in the two blocks)
 IterBlockOk(r) ==
   LET out == V(r.m, r.ex)  B == V(r.bm, r.be)  M == Reg(r.model)  D == Reg(r.data)  nb == Len(memo.bcells) IN
-  /\ HasReg(r.model) /\ HasReg(r.data) /\ SameShape(out, nb) /\ SameShape(B, nb)
+  /\ FanReg(r.model) /\ FanReg(r.data) /\ SameShape(out, nb) /\ SameShape(B, nb)
   /\ BlockSymmetric(memo.bcells, memo.blkOff, memo.bg, B)         \* hypotheses
   /\ SameShape(D, NCells) /\ \A i \in 1..NCells : ValAt(D, i) = ApplyBlockAt(g, memo.cells, memo.blkOff, M, B, i)
   /\ \A n \in 1..nb :
@@ -155,7 +157,7 @@ IterBlockOk(r) ==
 \* r.lib: the library's own KL(FanProjData, FanProjData) (fixed point 2^-18).
 KLStartOk(r) ==
   LET Y == Reg(r.data)  M == Reg(r.model) IN
-  /\ HasReg(r.data) /\ HasReg(r.model)
+  /\ FanReg(r.data) /\ FanReg(r.model)
   /\ \A i \in 1..NCells : ValAt(Y, i) = ValAt(Y, memo.swapIdx[i])          \* symmetric data
   /\ \A i \in 1..NCells : M.m[i] = 0 => Y.m[i] = 0
 OnceSum(r) == SumMasked(r.cells, memo.once, 1, Len(r.cells))
